@@ -1,7 +1,8 @@
 (* Layer M for package xmath/xrand.  The pseudo-random source and the floating-point
    computation of Algorithm L in sampler.Next (math.Log / math.Exp / math.Floor of r.Float64())
    are replaced by an ORACLE: the t-th call of Next past the reservoir phase either reports
-   that the computed skip is infinite/NaN ([DStop]: Next returns (math.MaxInt, 0)) or delivers
+   that the computed skip is infinite, NaN or so large that the running index would leave the int
+   range ([DStop]: Next returns (math.MaxInt, 0) and draws nothing else) or delivers
    the pair (skip, replace) = (int(math.Floor(...)), r.Intn(k)) ([DSkip]).  r.Shuffle(n, swap)
    is replaced by the sequence of (i, j) pairs it passes to swap.  Every theorem quantifies
    over ALL oracles, so it holds for whatever the real source and libm produce, as long as
